@@ -344,7 +344,7 @@ pub fn run_side_effect_analysis(cfg: &Cfg) -> ReportCollection {
             } else {
                 reports.push(build_unused_variable(source));
             }
-            reported_vars.insert(source.name().to_string());
+            reported_vars.insert(source.name().without_version());
         } else if !taint_analysis.taints_any(source.name(), &sinks) {
             // If the variable does not flow into any of the sinks, it is side-effect free.
             if cfg.parameters().contains(source.name()) {
@@ -352,7 +352,7 @@ pub fn run_side_effect_analysis(cfg: &Cfg) -> ReportCollection {
             } else {
                 reports.push(build_variable_without_side_effect(source, cfg.definition_type()));
             }
-            reported_vars.insert(source.name().to_string());
+            reported_vars.insert(source.name().without_version());
         }
     }
     // Generate reports for unused or unconstrained signals.
@@ -365,8 +365,9 @@ pub fn run_side_effect_analysis(cfg: &Cfg) -> ReportCollection {
         if source.to_string() == "_" {
             continue;
         }
-        // Don't generate multiple reports for the same variable.
-        if reported_vars.contains(&source.to_string()) {
+        // Don't generate multiple reports for the same variable. (Variables are identified by
+        // their unique names: two declarations may share the name used in the source.)
+        if reported_vars.contains(&source.without_version()) {
             continue;
         }
         if !variables_read.contains(source) && taint_analysis.get_definition(source).is_none() {
